@@ -3,7 +3,7 @@ C14 / defect 1: a shallow copy of an instance that was created, touched and garb
 owner reference behind in the managed container of the ORIGINAL instance.  A later assignment to the managed field of
 the original (company.members = {person}) stores the value but records no relation and draws no inference.
 
-Run:  cd /tmp/hunt2/C14 && PYTHONPATH=/tmp/hunt2/C14/src:/tmp/hunt2/C14 /venv/bin/python HUNT/defect1.py
+Run:  cd /tmp/hunt2/C14 && PYTHONPATH=/repo/src:/tmp/hunt2/C14 /venv/bin/python HUNT/defect1.py
 """
 from __future__ import annotations
 
